@@ -14,16 +14,6 @@ namespace TaRs.Gen.BollingerBands
 open TaRs TaRs.Rs
 variable {F : Type} [Scalar F]
 
-/-- sequencing of two steps that cannot fail: if the first step succeeds with a result satisfying
-    `P` and the continuation succeeds on every such result, the whole succeeds.  Used with the
-    components' `next_total`, whose input is found by unification: it is never written down. -/
-theorem bind_total {α β : Type} {o : Option α} {f : α → Option β} {P : α → Prop} {Q : β → Prop}
-    (h : ∃ r, o = some r ∧ P r) (k : ∀ r, P r → ∃ q, f r = some q ∧ Q q) :
-    ∃ q, o.bind f = some q ∧ Q q := by
-  obtain ⟨r, e, hp⟩ := h
-  subst e
-  exact k r hp
-
 theorem next_total (s : BollingerBands F) (x : F) (h : WF s) :
     ∃ r, s.next x = some r ∧ WF r.1 ∧ r.1.period = s.period ∧ r.1.multiplier = s.multiplier := by
   unfold next
@@ -33,11 +23,6 @@ theorem next_total (s : BollingerBands F) (x : F) (h : WF s) :
   refine bind_total (StandardDeviation.next_total _ _ h.sd) ?_
   rintro ⟨sd', v⟩ ⟨w, p⟩
   exact ⟨_, rfl, ⟨w, p.trans h.per⟩, rfl, rfl⟩
-
-theorem nextBar_eq (s : BollingerBands F) (b : Bar F) : s.nextBar b = s.next b.close := by
-  unfold nextBar
-  try simp only [gen_helper]
-  cases h : s.next b.close <;> simp [h]
 
 /-- `nextBar` never panics on a well-formed state, keeps it well-formed and keeps the parameters -/
 theorem nextBar_total (s : BollingerBands F) (b : Bar F) (h : WF s) :
